@@ -82,7 +82,7 @@ macro_rules! eager {
         let mut ms = $my.find_all($t.iter(), $k as $dt);
         loop {
             let mut aln = Alignment::default();
-            let flavour = $rng.below(4);
+            let flavour = $rng.below(5);
             $flav[flavour as usize] += 1;
             let (end, dist) = match flavour {
                 0 => match ms.next() {
@@ -133,6 +133,24 @@ macro_rules! eager {
                             }
                             if s != aln.ystart || e != aln.yend || ops != aln.operations {
                                 err = Some(format!("next_path() ({},{},{:?}) disagrees with alignment() {:?}", s, e, ops, aln));
+                                break;
+                            }
+                            (e - 1, d as usize)
+                        }
+                        None => break,
+                    }
+                }
+                3 => {
+                    let mut rops = vec![];
+                    match ms.next_path_reverse(&mut rops) {
+                        Some((s, e, d)) => {
+                            if !ms.alignment(&mut aln) {
+                                err = Some("alignment() refused right after next_path_reverse()".into());
+                                break;
+                            }
+                            rops.reverse();
+                            if s != aln.ystart || e != aln.yend || rops != aln.operations {
+                                err = Some(format!("next_path_reverse() ({},{}, reversed {:?}) disagrees with alignment() {:?}", s, e, rops, aln));
                                 break;
                             }
                             (e - 1, d as usize)
@@ -253,7 +271,7 @@ impl C10 {
         let mut l8: long::Myers<u8> = b.build_long::<u8, _, _>(p);
         let mut l64: long::Myers<u64> = b.build_long_64(p);
         let mut l16: long::Myers<u16> = b.build_long::<u16, _, _>(p);
-        let mut flav = [0u64; 4];
+        let mut flav = [0u64; 5];
         for (si, (t, k)) in searches.iter().enumerate() {
             let k = (*k).min(255);
             let d = model::sellers(p, t, &|a, bb| (!cfg.eq(a, bb)) as usize);
@@ -426,7 +444,7 @@ impl C10 {
             }
         }
         for (i, f) in flav.iter().enumerate() {
-            ctx.count(["api:next", "api:next_end+start+path", "api:next_path", "api:next_alignment"][i], *f);
+            ctx.count(["api:next", "api:next_end+start+path", "api:next_path", "api:next_path_reverse", "api:next_alignment"][i], *f);
         }
     }
 }
@@ -449,7 +467,7 @@ impl Monitor for C10 {
     fn rule(&self) -> &'static str {
         "case = one pattern + equality configuration, Myers objects of every applicable word type plus long::Myers<u8|u16|u64>, and a history of 2-3 searches (text, k) on the \
          same objects (second search on a shorter text with smaller k, then a longer one). Eager search: each hit is consumed through a random one of next / next_end+start+path+ \
-         path_reverse+alignment / next_path / next_alignment and the flavours must agree; hits == Sellers-DP hits; every alignment passes the validator (consumes pattern and \
+         path_reverse+alignment / next_path / next_path_reverse / next_alignment and the flavours must agree; hits == Sellers-DP hits; every alignment passes the validator (consumes pattern and \
          text[ystart..yend], Match iff equal under the configured equality, Subst iff unequal, #non-match == distance == score, coordinates/mode); accessors refuse after exhaustion. \
          Lazy search: after each hit, hit_at/path_at/path_at_reverse/alignment_at at already visited ends in random order with repetitions (every visited end for the single-word \
          implementation, hit ends only for the block implementation) must agree, equal D[end], be valid; queries beyond the last searched end and before the first step must be \
